@@ -1205,6 +1205,28 @@ func minmax(fr *frame, fn *ssa.Builtin, x, y value, isMin bool) value {
 func rangeIter(fr *frame, x value) iter {
 	switch x := x.(type) {
 	case *omap:
+		if fr.i.cfg.NondetMaps > 0 && x != nil && fr.i.path != nil {
+			// Go leaves the iteration order of a map unspecified: explore every
+			// order of a small map (a snapshot of its live entries)
+			var live []*mentry
+			for _, e := range x.entries {
+				if !e.deleted {
+					live = append(live, e)
+				}
+			}
+			if n := len(live); n >= 2 && n <= fr.i.cfg.NondetMaps {
+				mapAccess(fr, x, false)
+				perm := make([]*mentry, 0, n)
+				rest := append([]*mentry(nil), live...)
+				for len(rest) > 1 {
+					k := fr.i.choice(len(rest), "map-order")
+					perm = append(perm, rest[k])
+					rest = append(rest[:k], rest[k+1:]...)
+				}
+				perm = append(perm, rest[0])
+				return &permIter{entries: perm}
+			}
+		}
 		return &omapIter{m: x}
 	case string:
 		return &stringIter{b: strBytes(x)}
@@ -1639,4 +1661,21 @@ func fandbits[F floaty](x, y F) F {
 		*(*uint64)(unsafe.Pointer(&x)) &= *(*uint64)(unsafe.Pointer(&y))
 	}
 	return x
+}
+
+// permIter iterates a fixed permutation of map entries (nondeterministic-map mode).
+type permIter struct {
+	entries []*mentry
+	pos     int
+}
+
+func (it *permIter) next(fr *frame) tuple {
+	for it.pos < len(it.entries) {
+		e := it.entries[it.pos]
+		it.pos++
+		if !e.deleted {
+			return tuple{true, e.key, e.val}
+		}
+	}
+	return tuple{false, nil, nil}
 }
